@@ -113,10 +113,12 @@ fn run_mem(router: &v::VRouter, segs: Vec<Vec<u8>>) -> (Vec<u8>, &'static str, b
         let mut rd = ScriptedReader::new(segs);
         let mut vr = v::VRequest::new();
         let mut out = vec![]; let mut end = "stuck";
+        let mut unread = 0..0;
         for _ in 0..64 {
-            vr.clear();
-            match vr.read(&mut rd).await {
-                Ok(Some(())) => {
+            let carried = vr.clear_keeping(std::mem::take(&mut unread));
+            match vr.read_following(&mut rd, carried).await {
+                Ok(Some(following)) => {
+                    unread = following;
                     let close = matches!(vr.get().headers.Connection(), Some("close" | "Close"));
                     let res = vr.handle(router).await;
                     v::send(res, &mut out).await;
@@ -215,7 +217,7 @@ pub fn gen(rng: &mut Rng, idx: usize) -> Value {
     let n = rng.range(2, if c05 { 10 } else { 5 });
     let reqs: Vec<Value> = (0..n).map(|k| json!({"h": rng.range(1, 3), "b": if rng.chance(1, 2) { 0 } else { rng.range(1, 6) }, "close": k + 1 == n && rng.chance(1, 3),
         "z": rng.chance(1, 3), "mark": rng.chance(1, 3), "many": rng.chance(1, 3), "bad": false})).collect();
-    let reqs: Vec<Value> = reqs.into_iter().enumerate().map(|(k, mut r)| { if k + 1 < n && rng.chance(1, 6) { r["bad"] = json!(true); r["b"] = json!(0); r["close"] = json!(false); r["h"] = json!(rng.range(2, 3)) } r }).collect();
+    let reqs: Vec<Value> = reqs.into_iter().enumerate().map(|(k, mut r)| { if c05 && k + 1 < n && rng.chance(1, 6) { r["bad"] = json!(true); r["b"] = json!(0); r["close"] = json!(false); r["h"] = json!(rng.range(2, 3)) } r }).collect();
     let mut ends = vec![]; let mut tot = 0; for r in &reqs { tot += (i(&r["h"]) + i(&r["b"])) as usize; ends.push(tot) }
     let mut cuts: Vec<usize> = if c05 { ends[..ends.len() - 1].to_vec() } else {
         let mut cs: Vec<usize> = (1..tot).filter(|_| rng.chance(1, 3)).collect();
